@@ -43,6 +43,7 @@ fn run_check(id: &str, rep: &mut Report) -> bool {
         "C07" => checks::c07::run(rep),
         "C08" => checks::c08::run(rep),
         "C09" => checks::c09::run(rep),
+        "C10" => checks::c10::run(rep),
         "C11" => checks::c11::run(rep),
         "C12" => checks::c12::run(rep),
         "C13" => checks::c13::run(rep),
@@ -117,6 +118,7 @@ fn main() {
                 "C07" => checks::c07::replay(&v["case"], &mut rep),
                 "C08" => checks::c08::replay(&v["case"], &mut rep),
                 "C09" => checks::c09::replay(&v["case"], &mut rep),
+                "C10" => checks::c10::replay(&v["case"], &mut rep),
                 "C11" => checks::c11::replay(&v["case"], &mut rep),
                 "C12" => checks::c12::replay(&v["case"], &mut rep),
                 "C13" => checks::c13::replay(&v["case"], &mut rep),
